@@ -34,6 +34,12 @@ CLAIMS = {
          "Decides that checked block types are only built in listed constructors, validating constructors return Ok only behind their Merkle-proof/root checks against the header data hash, unchecked constructors are confined to the sequencer storage read path, rollup maps are sorted before hashing, the two filter routines agree field by field, the Celestia split copies each rollup's own id/data/proof. Value equality of served data is not decided.", "4/C07"),
  "C10": ("who-may-call RPC sinks + must-dominate height-equality guards + operand provenance of Update variants + monotone-field rule",
          "Decides that ExecuteBlock is only reachable via execute_soft/firm behind height == next expected with the matching parent hash, contract check before every commitment update, Update variants pair with the path and the rollup number mapped from this height, block-cache next height only moves forward, CommitmentState only built with firm <= soft. Interleavings are not enumerated.", "4/C10"),
+ "C11": ("who-may-write filesystem inventory + temp-write-then-rename ordering + typestate constructor discipline + confirmed-height provenance",
+         "Decides that the state file is only produced by write(temp) then rename(temp, path), typestate tokens are only minted behind the durable write of their record, the broadcast lies behind the durable prepared record, started(h) takes h from a confirmed result and the prepared height, the reader restarts from the last confirmed height, failed/pending Celestia responses are never reported as confirmed. The crash-point x outcome product is not enumerated.", "4/C11"),
+ "C12": ("must-dominate size guard + pairing of input/payload moves + filter control-dependence + writer/reader type agreement",
+         "Decides that a batch is committed only under compressed_size <= 1_000_000 and together with the payload derived from the same candidate, refusals mutate nothing, take moves input and payload together, the rollup filter guards rollup entries only (metadata unconditional), and relayer/conductor use the same two list types, compression helpers and namespaces. Exactly-once over block streams is not decided.", "4/C12"),
+ "C16": ("must-dominate size comparisons + failure atomicity + who-may-touch queue inventory",
+         "Decides that the bundle grows only behind both size comparisons by the compared amount, refusing paths do not write, the finished queue is touched only by push_back/pop_front/len, a flush only happens with room in the queue and is followed by the re-push, pop_now prefers finished bundles. Exactly-once over all push/pop sequences is not decided.", "4/C16"),
 }
 NA = {}
 checks = []
